@@ -9,7 +9,7 @@ mod verif_c08_position {
     use super::*;
     use crate::verif_spec as vs;
 
-    //@ob id=C08.nl props=C08 tier=quick kind=harness fns=adsb/position.rs:nl
+    //@ob id=C08.nl props=C08,C01 tier=quick kind=harness fns=adsb/position.rs:nl
     //@region every non-NaN f64 latitude: NL = 59 minus the number of the 58 formula-derived boundaries at or below |lat| (each boundary a potential off-by-one)
     #[kani::proof]
     #[kani::unwind(60)]
